@@ -3,32 +3,38 @@ from harness.core import cbool, clist, copt, cz, czlist
 
 ID = "C01"
 MODEL_TARGETS = ["C01/Cases.vo"]
-PROOF_TARGETS = ["C01/Gen.vo", "C01/Bridge.vo", "C01/Proofs.vo"]
-OBLIGATION_FILES = ["C01/Bridge.v"]
+PROOF_TARGETS = ["C01/Gen.vo", "C01/Bridge.vo", "C01/Proofs.vo", "C01/Gen2.vo", "C01/Bridge2.vo",
+                 "C01/Proofs2.vo"]
+OBLIGATION_FILES = ["C01/Bridge.v", "C01/Bridge2.v"]
 PROPS_FILE = "C01/Props.v"
 SHARD = 500
 RULE = ("random splitter configurations (n<=60, fh sorted subset of 1..8, window/step/initial window "
         ">=1, both start modes, feasibility boundary n = wl+max(fh)+{-1,0,1,..} oversampled), single "
-        "and cutoff splitters, temporal_train_test_split with int sizes / relative fh; thorough adds the "
-        "exhaustive scope n<=12, wl<=5, step<=4, iw in {None, wl+1..wl+3}, fh subset of 1..4. "
-        "non-trivial = accepted configuration yielding >= 2 splits (or a rejection at the exact "
-        "feasibility boundary); distinct = distinct canonical JSON case")
+        "and cutoff splitters (cutoffs sorted, and in any order / empty), temporal_train_test_split "
+        "with int sizes / relative and absolute fh / fh with X (all four label sets) / every "
+        "combination of horizon and size arguments; thorough adds the exhaustive scope n<=12, wl<=5, "
+        "step<=4, iw in {None, wl+1..wl+3}, fh subset of 1..4. non-trivial = accepted configuration "
+        "yielding >= 2 splits (or a rejection at the exact feasibility boundary); distinct = distinct "
+        "canonical JSON case")
 TRUSTED = [
-    "translator/pyz.py + translator/split.py (Python ast -> Gallina, fail-closed); validated on every "
-    "run because the regenerated functions are proved equal to the model the implementation is "
-    "compared with",
-    "modelled: numpy arange/broadcast/boolean-mask filter, ForecastingHorizon as a sorted list of "
-    "positive Z (is_all_in_sample, is_all_out_of_sample, fh[0], fh[-1]), check_* validators as "
-    "identity on valid input, sklearn train_test_split(shuffle=False) size rule for int sizes",
+    "translator/pyz.py + pyzx_c20.py + translator/split.py (Python ast -> Gallina, fail-closed); "
+    "validated on every run because the regenerated functions are proved equal to the model the "
+    "implementation is compared with",
+    "modelled: numpy arange/broadcast/boolean-mask filter/np.sort, ForecastingHorizon as a sorted list "
+    "of positive Z (is_all_in_sample, is_all_out_of_sample, fh[0], fh[-1]), check_* validators as "
+    "identity on valid input (except check_cutoffs, regenerated), label-based .loc selection, sklearn "
+    "train_test_split(shuffle=False) size rule for int sizes (a parameter of the regenerated "
+    "temporal_train_test_split)",
 ]
-MODELLED = ["temporal_train_test_split / _split_by_fh (hand model tied by correspondence only)",
+MODELLED = ["sklearn's train_test_split (int sizes): hand model tied by correspondence only",
             "float test_size/train_size (sklearn rounding) not modelled",
             "in-sample horizons: translated but outside the property's quantifier (no theorem)"]
 
-
 def translate(repo):
+    """Gen.v (window / single / cutoff splitters, _split_by_fh) and Gen2.v (check_cutoffs as code,
+    the X slices of _split_by_fh, the dispatch of temporal_train_test_split)."""
     from translator import split
-    return split.translate(repo)
+    return split.translate_all(repo)
 
 
 # ------------------------------------------------------------------------------------------------
@@ -76,6 +82,36 @@ def gen_cases(rng, tier):
             cut[-1] = hi  # boundary: largest test position exactly n-1, n, n+1
         cut = sorted(set(cut))
         cases.append({"kind": "cutoff", "n": n, "fh": fh, "wl": wl, "cutoffs": cut})
+    for _ in range(50 if tier == "quick" else 600):
+        # cutoffs in any order / none at all (check_cutoffs sorts and rejects an empty array)
+        fh = _rand_fh(rng)
+        wl = rng.randint(1, 8)
+        n = rng.randint(3, 40)
+        hi = max(0, n - fh[-1] + rng.choice([-3, -1, 0, 0, 1, 1, 2]))
+        cut = list(set(rng.randint(0, hi) for _ in range(rng.randint(1, 5))))
+        if rng.random() < 0.4:
+            cut = list(set(cut + [hi]))
+        rng.shuffle(cut)
+        if rng.random() < 0.12:
+            cut = []
+        cases.append({"kind": "cutoff_any", "n": n, "fh": fh, "wl": wl, "cutoffs": cut})
+    for _ in range(40 if tier == "quick" else 400):
+        # horizon and size arguments in every combination
+        n = rng.randint(4, 30)
+        lo = rng.choice([0, 0, 5, -3])
+        how = rng.choice(["rel", "rel", "abs", "none"])
+        fh = None
+        if how == "rel":
+            fh = _rand_fh(rng, hi=min(8, n - 1))
+        elif how == "abs":
+            first = lo + rng.randint(1, n - 1)
+            fh = sorted(set([first] + [rng.randint(first, lo + n - 1) for _ in range(rng.randint(0, 2))]))
+        te = rng.choice([None, None, rng.randint(1, n - 1)])
+        tr = rng.choice([None, None, rng.randint(1, n - 1)])
+        if fh is None and te is None and tr is None:
+            te = rng.randint(1, n - 1)
+        cases.append({"kind": "tts", "lo": lo, "n": n, "how": how, "fh": fh, "test_size": te,
+                      "train_size": tr})
     for _ in range(50 if tier == "quick" else 500):
         n = rng.randint(2, 40)
         te = rng.choice([None, rng.randint(1, n)])
@@ -155,9 +191,20 @@ def run_impl(case):
         elif k == "single":
             s = SingleWindowSplitter(fh=case["fh"], window_length=case["wl"])
             y = _y(case["n"])
-        elif k == "cutoff":
-            s = CutoffSplitter(np.array(case["cutoffs"]), fh=case["fh"], window_length=case["wl"])
+        elif k in ("cutoff", "cutoff_any"):
+            s = CutoffSplitter(np.array(case["cutoffs"], dtype=int), fh=case["fh"],
+                               window_length=case["wl"])
             y = _y(case["n"])
+        elif k == "tts":
+            import pandas as pd
+            from sktime.forecasting.base import ForecastingHorizon
+            lo, n = case["lo"], case["n"]
+            y = pd.Series(np.arange(n, dtype=float), index=pd.RangeIndex(lo, lo + n))
+            fh = None if case["fh"] is None else ForecastingHorizon(
+                case["fh"], is_relative=case["how"] == "rel")
+            a, b = temporal_train_test_split(y, test_size=case["test_size"],
+                                             train_size=case["train_size"], fh=fh)
+            return {"train": _ints(a.index), "test": _ints(b.index)}
         elif k == "tts_size":
             y = _y(case["n"])
             a, b = temporal_train_test_split(y, test_size=case["test_size"],
@@ -286,8 +333,26 @@ def oracle(case, out):
         if tr != want:
             return "single-window-content: %s expected %s" % (tr, want)
         return None
-    if k == "cutoff":
-        n, fh, wl, cs = case["n"], case["fh"], case["wl"], case["cutoffs"]
+    if k == "tts":
+        lo, n, fh, te, tr = case["lo"], case["n"], case["fh"], case["test_size"], case["train_size"]
+        if fh is not None and (te is not None or tr is not None):
+            return None if "err" in out else "horizon-and-size-arguments-both-accepted"
+        if fh is None:
+            sub = dict(case, kind="tts_size")
+            got = dict(out)
+            if "err" not in got:
+                got = {"train": [x - lo for x in out["train"]], "test": [x - lo for x in out["test"]]}
+            return oracle(sub, got)
+        if case["how"] == "abs":
+            return oracle(dict(case, kind="tts_fh_abs"), out)
+        got = dict(out)
+        if "err" not in got:
+            got = {"train": [x - lo for x in out["train"]], "test": [x - lo for x in out["test"]]}
+        return oracle(dict(case, kind="tts_fh"), got)
+    if k in ("cutoff", "cutoff_any"):
+        n, fh, wl, cs = case["n"], case["fh"], case["wl"], sorted(case["cutoffs"])
+        if not cs:
+            return None if "err" in out else "empty-cutoffs-accepted"
         bad = max(cs) >= n or max(cs) + fh[-1] >= n
         if "err" in out:
             return None if bad else "rejected-feasible-configuration: %s" % out["err"]
@@ -353,9 +418,11 @@ def oracle(case, out):
 
 def nontrivial(case, out):
     k = case["kind"]
-    if k in ("window", "cutoff"):
+    if k in ("window", "cutoff", "cutoff_any"):
         if "err" in out:
             fm = case["fh"][-1]
+            if k != "window" and not case["cutoffs"]:
+                return True
             if k == "window":
                 return case["wl"] + fm == case["n"] + 1 or (
                     case["iw"] is not None and case["iw"] + fm == case["n"] + 1)
@@ -368,6 +435,10 @@ def shrink(case):
     for d in _shrink(case):
         # stay inside the property's quantifier: the horizon must fit the series
         if d["kind"] in ("tts_fh", "single") and d["n"] <= d["fh"][-1]:
+            continue
+        if d["kind"] == "tts" and (d["fh"] is not None and (
+                (d["how"] == "rel" and d["n"] <= d["fh"][-1]) or
+                (d["how"] == "abs" and not (d["lo"] < d["fh"][0] and d["fh"][-1] < d["lo"] + d["n"])))):
             continue
         yield d
 
@@ -415,7 +486,7 @@ def _shrink(case):
 
 
 CASES_HEADER = """From Coq Require Import ZArith List Bool.
-Require Import SkV.Lib.Base SkV.Lib.ZRange SkV.C01.Model SkV.C01.Cases.
+Require Import SkV.Lib.Base SkV.Lib.ZRange SkV.C01.Model SkV.C01.Model2 SkV.C01.Cases.
 Import ListNotations.
 Open Scope Z_scope.
 """
@@ -457,9 +528,28 @@ def coq_case(case, out):
     if k == "cutoff":
         return "CCutoff %s %s %s %s %s" % (cz(case["n"]), czlist(case["fh"]), cz(case["wl"]),
                                           czlist(case["cutoffs"]), _cout(out))
+    if k == "cutoff_any":
+        return "CCutoffAny %s %s %s %s %s" % (cz(case["n"]), czlist(case["fh"]), cz(case["wl"]),
+                                             czlist(case["cutoffs"]), _cout(out))
+    if k == "tts":
+        fh = "None" if case["fh"] is None else "(Some (%s, %s))" % (cbool(case["how"] == "rel"),
+                                                                   czlist(case["fh"]))
+        if case["fh"] is None and "err" not in out:
+            # the size form is modelled over positions: labels lo.. -> positions 0..
+            out = {"train": [x - case["lo"] for x in out["train"]],
+                   "test": [x - case["lo"] for x in out["test"]]}
+        return "CTts %s %s %s %s %s %s" % (cz(case["lo"]), cz(case["n"]), fh,
+                                          copt(case["test_size"], cz), copt(case["train_size"], cz),
+                                          _cout2(out))
     if k == "tts_size":
         return "CTtsSize %s %s %s %s" % (cz(case["n"]), copt(case["test_size"], cz),
                                         copt(case["train_size"], cz), _cout2(out))
+    if k in ("tts_fh", "tts_fh_abs") and "X_train" in out:
+        # with exogenous data: all four label sets
+        o = "(Some ((%s, %s), (%s, %s)))" % (czlist(out["train"]), czlist(out["test"]),
+                                             czlist(out["X_train"]), czlist(out["X_test"]))
+        return "CTtsFhX %s %s %s %s %s" % (cz(case.get("lo", 0)), cz(case["n"]),
+                                          cbool(k == "tts_fh"), czlist(case["fh"]), o)
     if k == "tts_fh":
         return "CTtsFh %s %s %s" % (cz(case["n"]), czlist(case["fh"]), _cout2(out))
     if k == "tts_fh_abs":
@@ -478,6 +568,15 @@ def coq_model_term(case):
     if k == "cutoff":
         return "cutoff_split %s %s %s %s" % (cz(case["n"]), czlist(case["fh"]), cz(case["wl"]),
                                             czlist(case["cutoffs"]))
+    if k == "cutoff_any":
+        return "cutoff_split_any %s %s %s %s" % (cz(case["n"]), czlist(case["fh"]), cz(case["wl"]),
+                                                czlist(case["cutoffs"]))
+    if k == "tts":
+        fh = "None" if case["fh"] is None else "(Some (%s, %s))" % (cbool(case["how"] == "rel"),
+                                                                   czlist(case["fh"]))
+        return "tts_dispatch %s %s %s %s %s" % (cz(case["lo"]), cz(case["n"]), fh,
+                                               copt(case["test_size"], cz),
+                                               copt(case["train_size"], cz))
     if k == "tts_size":
         return "tts_positions %s %s %s" % (cz(case["n"]), copt(case["test_size"], cz),
                                           copt(case["train_size"], cz))
